@@ -28,8 +28,8 @@ class AnchorMissing(Exception):
 
 
 class LockTable:
-    def __init__(self):
-        j = json.load(open(os.path.join(RULES, "lock_classes.json")))
+    def __init__(self, j=None):
+        j = j or json.load(open(os.path.join(RULES, "lock_classes.json")))
         self.classes = [(c["class"], re.compile(c["payload"]), c.get("doc_name")) for c in j["classes"]]
         self.prefix = j["reference_order_prefix"]
         self.suffix = j["reference_order_suffix"]
@@ -418,9 +418,10 @@ class LockEngine:
     # ------------------------------------------------------------------ verdict
     def reference_order(self):
         """Parse the documented lock order from the doc comment of rawdb::DatabaseInner."""
-        adt = self.P.adts.get("rawdb::DatabaseInner")
+        adt_path = getattr(self, "order_adt", "rawdb::DatabaseInner")
+        adt = self.P.adts.get(adt_path)
         if adt is None:
-            raise AnchorMissing("rawdb::DatabaseInner not found")
+            raise AnchorMissing("%s not found" % adt_path)
         m = re.search(r"Lock ordering:\s*(.+?)\.?\s*$", adt["doc"], re.M)
         if not m:
             raise AnchorMissing("'Lock ordering:' sentence missing from the doc comment of rawdb::DatabaseInner")
